@@ -21,7 +21,8 @@ META = {
         "members (modules purged from sys.modules in a third of the cases so that the import path "
         "runs); half of the cases make exactly one node fail (unknown module / unknown attribute on "
         "an importable module or class / raising factory / wrong arguments / non-callable) at a random "
-        "position; optional non-empty root location. Non-trivial = at least two __type__ nodes; "
+        "position; a quarter of the valid trees hold one container object at two positions (what a YAML alias "
+        "produces): every position must be constructed on its own; optional non-empty root location. Non-trivial = at least two __type__ nodes; "
         "distinct by content."
     ),
     "assumptions": [
@@ -118,8 +119,37 @@ def gen_case(rnd, spec):
                 target["b"] = 5
                 target["zzz"] = 1  # unknown keyword
         fail = {"nid": target["nid"], "kind": kind}
+    share = None
+    if fail is None and rnd.random() < 0.25:
+        # the same container object at a second position (what a YAML alias produces)
+        containers = [p for p in container_paths(tree) if p]
+        hosts = [p for p in container_paths(tree) if isinstance(get_at(tree, p), dict) and "__type__" not in get_at(tree, p)]
+        if containers and hosts:
+            src = rnd.choice(containers)
+            dst = rnd.choice(hosts)
+            if dst[: len(src)] != src:  # not inside itself: no cycles
+                share = {"from": src, "into": dst, "key": "shared_copy"}
     return {"tree": tree, "fail": fail, "where": rnd.choice(["", "", "", "cfg", ".pipeline[2]"]),
-            "purge": rnd.random() < 0.35}
+            "purge": rnd.random() < 0.35, "share": share}
+
+
+def container_paths(tree, path=()):
+    out = []
+    if isinstance(tree, dict):
+        out.append(list(path))
+        for k, v in tree.items():
+            out += container_paths(v, path + (k,))
+    elif isinstance(tree, list):
+        out.append(list(path))
+        for i, v in enumerate(tree):
+            out += container_paths(v, path + (i,))
+    return out
+
+
+def get_at(tree, path):
+    for step in path:
+        tree = tree[step]
+    return tree
 
 
 # ------------------------------------------------------------------------------ reference
@@ -179,6 +209,13 @@ def execute(case, result):
         result.count("cases_with_fresh_imports")
     faclog.reset()
     tree, fail = case["tree"], case["fail"]
+    if case.get("share"):
+        import copy
+
+        tree = copy.deepcopy(tree)
+        sh = case["share"]
+        get_at(tree, sh["into"])[sh["key"]] = get_at(tree, sh["from"])  # the very same object, twice
+        return execute_shared(case, tree, result)
     nodes = type_nodes(tree, case["where"])
     by_nid = {n["nid"]: (n, path) for n, path in nodes}
     kwargs = {"where": case["where"]} if case["where"] else {}
@@ -258,6 +295,56 @@ def execute(case, result):
     return [(p, None) for p in problems[:3]]
 
 
+def execute_shared(case, tree, result):
+    """A container reachable at two positions: every position gets its own construction."""
+    from cobald.daemon.config.mapping import Translator
+
+    nodes = type_nodes(tree, case["where"])
+    occurrences = {}
+    for n, path in nodes:
+        occurrences.setdefault(n["nid"], []).append(path)
+    kwargs = {"where": case["where"]} if case["where"] else {}
+    try:
+        out = Translator().translate_hierarchy(tree, **kwargs)
+    except Exception as e:  # noqa: B902
+        return [("valid tree with a shared container rejected: %r" % (e,), None)]
+    calls = {}
+    for entry in faclog.LOG:
+        calls.setdefault(entry["kwargs"].get("nid"), []).append(entry["product"])
+    problems = []
+    for nid, paths in occurrences.items():
+        made = calls.get(nid, [])
+        if len(made) != len(paths):
+            problems.append(("node %s occurs at %d positions %r but its factory was called %d time(s)" % (nid, len(paths), paths[:3], len(made)), None))
+    # the results at the two positions are distinct objects built by the right factories
+    found = []
+
+    def walk(value, original):
+        if isinstance(original, dict) and "__type__" in original:
+            found.append((original["nid"], value))
+            return
+        if isinstance(original, dict) and isinstance(value, dict):
+            for k in original:
+                if k in value:
+                    walk(value[k], original[k])
+        elif isinstance(original, list) and isinstance(value, list):
+            for a, b in zip(value, original):
+                walk(a, b)
+
+    walk(out, tree)
+    seen = {}
+    for nid, obj in found:
+        if isinstance(obj, dict):
+            problems.append(("a __type__ mapping of node %s was left untranslated at one of its positions" % nid, None))
+        elif id(obj) in seen:
+            problems.append(("two positions of node %s share one constructed object" % nid, None))
+        seen[id(obj)] = nid
+    result.count("trees_with_shared_container")
+    if any(len(p) > 1 for p in occurrences.values()):
+        result.count("shared_type_nodes_checked", sum(1 for p in occurrences.values() if len(p) > 1))
+    return problems[:3]
+
+
 def nontrivial(case):
     return len(type_nodes(case["tree"])) >= 2
 
@@ -274,7 +361,8 @@ def run_shard(spec):
 
 
 def finish(total, tier):
-    needed = ["valid_trees", "failing_trees", "nodes_constructed", "order_constraints_checked", "cases_with_fresh_imports"]
+    needed = ["valid_trees", "failing_trees", "nodes_constructed", "order_constraints_checked", "cases_with_fresh_imports",
+              "trees_with_shared_container", "shared_type_nodes_checked"]
     needed += ["failing_" + k for k in FAILURES]
     for name in needed:
         if not total.counters.get(name) and not total.violations:
